@@ -25,6 +25,8 @@ WriteViol(t) ==
          (IF t.ret = "ok" /\ ~AfterOk(t) THEN {<<l, "FalseAck">>} ELSE {})
          \cup (IF t.ret = "timeout" THEN {<<l, "OutcomeLost">>}
                ELSE IF t.ret # Expected(t) THEN {<<l, "WrongOutcome">>} ELSE {})
+    [] t.path = "local-noquorum" ->     \* accepted by the leader, never committed: must not be acknowledged
+         (IF t.ret = "ok" \/ t.after # t.before THEN {<<l, "FalseAck">>} ELSE {})
     [] t.path = "remote-ok" ->
          (IF t.ret = "ok" /\ t.remote = 1 THEN {} ELSE {<<l, "ProxyLost">>})
     [] t.path \in {"remote-err", "noaddr"} ->
